@@ -67,7 +67,7 @@ CloseJobs == /\ mainst # "crashed" /\ pidx = Len(list) + 1 /\ ~jobsClosed
              /\ jobsClosed' = TRUE
              /\ UNCHANGED <<list, ncpu, pidx, wst, wfile, wg, resClosed, acc, mainst, result>>
 
-\* os.Open / Stat / io.Copy
+\* os.Stat (anything that is not a regular file is skipped like a directory) / os.Open / io.Copy
 Process(w) == /\ Alive /\ wst[w] = "work"
               /\ LET e == wfile[w] IN
                  IF e \in DirE
